@@ -2,7 +2,7 @@
    Part (a): the glob-style pattern language.  Only statements, each closed by
    [exact]; the proofs are in Proofs/GlobProofs.v. *)
 From Coq Require Import List NArith Bool.
-From PTA Require Import Sx Glob GlobProofs Names Graph Search Scan NamesProofs SearchProofs GraphProofs ScanProofs.
+From PTA Require Import Sx Glob GlobProofs Names Graph Search Scan NamesProofs SearchProofs GraphProofs ScanProofs SubscanProofs ExclProofs.
 Import ListNotations.
 Open Scope N_scope.
 
@@ -55,6 +55,39 @@ Theorem C08_scan_files : forall (comp : Type) excl (root : comp) (n : @fsnode co
 Proof. exact @walk_files. Qed.
 Print Assumptions C08_scan_files.
 
+(* "... every import between two remaining modules is exactly as in the scan without that pattern":
+   [unfiltered c] is the same request without file/directory exclusions.  An import (a, b) of the filtered scan whose
+   importee b is a remaining module is an import of the unfiltered scan between two remaining modules, and conversely.
+   Hypotheses: externals excluded (default), module_path exists and is not excluded, and for every import statement s in a
+   remaining file u:
+     [k2free]  s does not import, through a 'from P import n' form, a sub module P.n that is excluded while P remains
+               (otherwise: known finding K2, refuted just below), and
+     [unambR]  absolute names in s are fully qualified only (void when module_path = root_path). *)
+Theorem C08_scan_imports :
+  forall (comp : Type) (ceqb : comp -> comp -> bool), (forall x y, reflect (x = y) (ceqb x y)) ->
+  forall (c : @scan_cfg comp), sc_exclude_external c = true ->
+  forall cs, subdir ceqb (sc_tree c) (sc_mp c) = Some cs -> sc_excl c (sc_mp c) = false ->
+  forall r1 r0, scan ceqb c = Some r1 -> scan ceqb (unfiltered c) = Some r0 ->
+  (forall u body s, In (u, body) (F (sc_excl c) (sc_root c) cs (sc_mp c)) -> In s (collect body) ->
+     k2free ceqb (filter (is_internal ceqb c) (mods0 c cs)) (keepm ceqb c cs) u s /\
+     unambR ceqb (filter (is_internal ceqb c) (mods0 c cs)) (abs_prefix c) s) ->
+  forall a b, (In (a, b) (sr_imports r1) /\ In b (sr_modules r1)) <->
+              (In (a, b) (sr_imports r0) /\ In a (sr_modules r1) /\ In b (sr_modules r1)).
+Proof. exact @excluded_scan_imports. Qed.
+Print Assumptions C08_scan_imports.
+
+(* the remaining parsed files are exactly the unfiltered ones whose module remains *)
+Theorem C08_scan_files_exact : forall (comp : Type) (excl : list comp -> bool) (root : comp) (cs : list (@fsnode comp)) pre u body,
+  In (u, body) (F excl root cs pre) <-> In (u, body) (F (@none comp) root cs pre) /\ In u (W excl root cs pre).
+Proof.
+  intros comp excl root cs pre u body. split.
+  - intros H. split; [apply (F_mono excl); exact H|]. apply F_char in H. destruct H as [p [Hp [-> Hn]]]. apply W_char.
+    exists p. split; [|auto]. apply in_flat_map in Hp. destruct Hp as [n [Hn0 Hp]]. apply in_flat_map. exists n.
+    split; [exact Hn0|apply (file_paths_modules n p body Hp)].
+  - intros [H1 H2]. apply F_back; assumption.
+Qed.
+Print Assumptions C08_scan_files_exact.
+
 (* K2 (known finding): "every import between two remaining modules is exactly as in the scan without that pattern"
    fails for 'from P import n' when P/n is excluded: proj/m.py contains 'from proj.pkg import n'; excluding
    proj/pkg/n.py turns the import m -> proj.pkg.n into m -> proj.pkg, an import between two remaining modules
@@ -78,3 +111,14 @@ Example C08_glob_example :
   glob_match [42; 97; 46; 98; 43] [47; 120; 47; 97; 88; 98; 43] = false /\
   no_newline [47; 120; 47; 97; 46; 98; 43].
 Proof. split; [reflexivity|]. split; [reflexivity|]. unfold no_newline, NL. simpl. intuition discriminate. Qed.
+
+(* non-vacuity of C08_scan_imports: proj/{m.py: "import proj.pkg.k; from proj.pkg import k; import proj.x", pkg/{k.py}, x.py},
+   excluding proj/x.py: the imports m -> pkg.k remain exactly as in the unfiltered scan, the import of proj.x loses its target *)
+Example C08_scan_imports_example :
+  let tree := [FFile 2 true [SImport [[1;3;4]]; SFrom 0 (Some [1;3]) [4]; SImport [[1;5]]]; FDir 3 [FFile 4 true []]; FFile 5 true []]%N in
+  let cfg := fun e => {| sc_root := 1%N; sc_tree := tree; sc_mp := []; sc_excl := e; sc_exclude_external := true;
+                         sc_ext_excl := fun _ => false; sc_has_ext_excl := false; sc_limit := None |} in
+  let ex := fun p => match p with [5]%N => true | _ => false end in
+  option_map (fun r => imps (sr_graph r)) (scan N.eqb (cfg ex)) = Some [([1;2], [1;3;4])]%N /\
+  option_map (fun r => imps (sr_graph r)) (scan N.eqb (unfiltered (cfg ex))) = Some [([1;2], [1;3;4]); ([1;2], [1;5])]%N.
+Proof. split; vm_compute; reflexivity. Qed.
